@@ -116,6 +116,12 @@ func buildCorpus(tier string) {
 	for _, t := range append(append([]string{}, brokenTexts...), badUnicodeTexts...) {
 		corpus = append(corpus, corpusEntry{Text: t, Spec: genDataSpec(s)})
 	}
+	// probes that show every kind of data value as it is (sign of a zero, float32 digits, struct fields ...)
+	for _, t := range valueProbes {
+		for v := 0; v < 3; v++ {
+			corpus = append(corpus, corpusEntry{Text: t, Spec: genDataSpec(s)})
+		}
+	}
 	k = len(corpus)
 	// 2. the baseline: every process parses and evaluates the corpus in its own
 	// order (derived from its chunk), so that a result which depends on what was
@@ -167,6 +173,9 @@ func buildCorpus(tier string) {
 	corpusHash = h.h
 	corpusBuilt = true
 }
+
+var valueProbes = []string{"toString(fnz)", "toString(fz)", "[fz, fnz, n1, n2, n3, n4]", "fnz", "'' + fz + '|' + fnz", "[名前, x\u0662, cafe\u0301]",
+	"[st1.N, st1.S, st1.F]", "[o1.a, o1.b, o1.c.d]", "this.n1", "[toString(n1), toString(n2), toString(n3), toString(n4)]", "an1", "[t1, year(t1), month(t1)]", "mapToArr(l1, 'age')"}
 
 const (
 	puRep = iota
